@@ -637,18 +637,25 @@ package originium
 //@ ensures forall(Int(x), SLMem[ref(mt.skiplist)][x] ==> (old(SLMem)[ref(mt.skiplist)][x] || x == SLW), trig(SLMem[ref(mt.skiplist)][x]))
 //@ ensures forall(P_skiplist_Element(x), (old(SLMem)[ref(mt.skiplist)][ref(x)] && ref(x) != SLW) ==> x.Entry == old(x.Entry), trig(SLMem[ref(mt.skiplist)][ref(x)]))
 //
+// C02 (timestamp continuity, wal side): the result is at least the version of every entry recover
+// puts into the memtable (ghost RecMaxSeen, raised at the only insertion site), and never negative.
+//@ ghost RecMaxSeen Int
 //@ func (*originium.memtable).recover -> r
-//@ props C14 C03
+//@ props C14 C03 C02
 //@ requires mt != nil && mt.wal != nil && walOK(mt.wal)
-//@ thin ^assert|^loop[12]|^pre\..*wal\.WAL_?\)?\.Write|^pre\..*Delete
+//@ thin ^assert|^post|^loop[12]|^pre\..*wal\.WAL_?\)?\.Write|^pre\..*Delete
 //@ assigns writeset
+//@ ensures r >= 0 && r >= RecMaxSeen
+//@ before_call os.ReadDir#0: ghost RecMaxSeen = 0
+//@ before_call (*skiplist.SkipList).Set#0: ghost RecMaxSeen = ite(entry.Version > RecMaxSeen, entry.Version, RecMaxSeen)
 //@ after_call (*wal.WAL).Read#0: ghost RecN = 0
 //@ after_call (*wal.WAL).Write#0: ghost RecN = RecN + 1
 //@ before_call (*wal.WAL).Delete#0: assert RecN == len(entries) && (RecN > 0 ==> DskSync[mt.wal.path] == len(DskData[mt.wal.path]))
 //@ loop 1:
-//@   invariant mt != nil && mt.wal != nil && walOK(mt.wal)
+//@   invariant mt != nil && mt.wal != nil && walOK(mt.wal) && maxVersion >= 0 && maxVersion >= RecMaxSeen
 //@ loop 2:
 //@   invariant mt != nil && mt.wal != nil && walOK(mt.wal) && l != nil && RecN == rangeindex + 1 && (RecN > 0 ==> DskSync[mt.wal.path] == len(DskData[mt.wal.path]))
+//@   invariant maxVersion >= 0 && maxVersion >= RecMaxSeen
 //
 //@ func (*originium.levelManager).fileName -> r
 //@ trusted path.Join/fmt.Sprintf of the directory and "<level>-<idx>.db": no effect on the heap; the result is left unconstrained
@@ -747,11 +754,26 @@ package originium
 // or cut short, the leftover of a flush or compaction that a crash interrupted before the file was
 // complete; its entries are still in the wal or in the tables it was meant to replace - must not
 // stop recovery: no Panicf of the loop is reachable because of it. Thin: only these assertions.
+// C02 (timestamp continuity, table side): the result is never negative and at least the version of
+// every entry of every table recover installs: at the PushBack of a table every entry of its data
+// block is at or below maxVersion, and maxVersion never falls below that value again (ghost TabFloor).
 //@ ghost BadFooter Bool
+//@ ghost TabFloor Int
 //@ func (*originium.levelManager).recover -> r
-//@ props C14 C03
-//@ thin ^assert
+//@ props C14 C03 C02
+//@ thin ^assert|^post|^loop
 //@ assigns writeset
+//@ ensures r >= 0 && r >= TabFloor
+//@ before_call os.ReadDir#0: ghost TabFloor = 0
+//@ before_call (*list.List).PushBack#0: assert all(j, 0, len(dataBlock.Entries), dataBlock.Entries[j].Version <= maxVersion)
+//@ before_call (*list.List).PushBack#0: assert maxVersion >= TabFloor
+//@ before_call (*list.List).PushBack#0: ghost TabFloor = maxVersion
+//@ loop 1:
+//@   invariant maxVersion >= 0 && maxVersion >= TabFloor
+//@ loop 2:
+//@   invariant maxVersion >= 0 && maxVersion >= TabFloor && all(j, 0, rangeindex + 1, dataBlock.Entries[j].Version <= maxVersion)
+//@ loop 3:
+//@   invariant maxVersion >= 0 && maxVersion >= TabFloor && all(j, 0, len(dataBlock.Entries), dataBlock.Entries[j].Version <= maxVersion)
 //@ after_call (*os.File).Seek#0: ghost BadFooter = (result1 != nil)
 //@ after_call (*os.File).Read#0: ghost BadFooter = BadFooter || result1 != nil
 //@ after_call (*table.Footer).Decode#0: ghost BadFooter = BadFooter || result != nil
@@ -772,7 +794,17 @@ package originium
 //@ assigns *c
 //@ ensures err == nil && c.SkipListMaxLevel > 0 && c.MemtableByteThreshold > 0 && c.DataBlockByteThreshold > 0 && c.L0TargetNum > 0 && c.LevelRatio > 0 && c.ImmutableBuffer >= 0
 //
+// C02 (timestamp continuity): the oracle restarts exactly one above the larger of the two recovered
+// maxima - so above every version recovery put into the memtable (memtable.recover: r >= RecMaxSeen)
+// and above every version of every installed table (levelManager.recover: r >= TabFloor): the first
+// commit after a reopen gets a timestamp no stored version has.
+//@ ghost OpenWalMax Int
+//@ ghost OpenDbMax Int
 //@ func originium.Open -> db, err
-//@ props C15 C12
-//@ thin ^makechan
+//@ props C15 C12 C02
+//@ thin ^makechan|^post
 //@ assigns writeset
+//@ after_call (*originium.memtable).recover#0: ghost OpenWalMax = result
+//@ after_call (*originium.levelManager).recover#0: ghost OpenDbMax = result
+//@ ensures db != nil ==> (db.oracle != nil && OpenWalMax >= RecMaxSeen && OpenDbMax >= TabFloor && OpenWalMax >= 0 && OpenDbMax >= 0)
+//@ ensures db != nil ==> db.oracle.nextTs == ite(OpenWalMax >= OpenDbMax, OpenWalMax, OpenDbMax) + 1
